@@ -86,6 +86,7 @@ type Scenario struct {
 	Recover   bool     `json:"recover"`
 	Keys      []string `json:"keys"` // all keys to audit
 	Others    []OtherTxn `json:"others"` // unused
+	ResolveBeforeAudit bool `json:"resolve_before_audit"` // program mode: a fresh client reads every key (resolving locks of finished transactions) before the MVCC dump; normalises U3
 	SafeWindowMs *int  `json:"safe_window_ms"` // config AsyncCommit.SafeWindow in ms (nil = default 2 s): 0 makes the store decline async commit / 1PC (max commit ts exceeded) so that the client falls back
 	ManagedTTL uint64  `json:"managed_ttl"` // transaction.ManagedLockTTL in ms (0 = default 20000): small values make heart-beats observable
 	Program   []Step   `json:"program"` // multi-transaction step program (C06 / C01); when set, Txn is ignored
@@ -885,6 +886,15 @@ func runProgram(sc *Scenario, e *env, out map[string]interface{}) {
 	finished := map[uint64]bool{}
 	for _, t := range names {
 		finished[txns[t].txn.StartTS()] = true
+	}
+	if sc.ResolveBeforeAudit {
+		// unistore fails a whole secondary Commit request with "lock not found" when another client already resolved
+		// one of its keys, and commits none of the others (U3); TiKV commits them. Any reader resolves such locks of a
+		// committed transaction, so let one do it before the dump.
+		if ts, err := cA.CurrentTimestamp(oracle.GlobalTxnScope); err == nil {
+			out["resolve_reads"] = e.readAll(cA, "c8", ts, 2*time.Second, true)
+			e.gates["c8"].waitQuiet(40*time.Millisecond, 5*time.Second)
+		}
 	}
 	// Background work (secondary commits, asynchronous rollbacks) has no observable end: a transient lock
 	// disappears within moments, a leftover lock stays for ever. Poll up to 3 s before declaring a lock left over.
